@@ -1,0 +1,21 @@
+//go:build verif
+
+package receiver
+
+// VerifFree returns the free download and decompress tokens and their limits
+// (verification harness only).
+func (r *Receiver) VerifFree() (dlFree, dlLimit, dcFree, dcLimit int) {
+	return r.downloadSnapshotLimit.VerifFree(), r.downloadSnapshotLimit.VerifLimit(),
+		r.decompressedSnapshotLimit.VerifFree(), r.decompressedSnapshotLimit.VerifLimit()
+}
+
+// VerifPending returns the names of the snapshots waiting to be handed to the sync loop.
+func (r *Receiver) VerifPending() map[string]string {
+	r.mu.Lock()
+	defer r.mu.Unlock()
+	out := make(map[string]string, len(r.snapshotsByInstance))
+	for k, v := range r.snapshotsByInstance {
+		out[k] = v.NameInfo.FullName
+	}
+	return out
+}
